@@ -42,6 +42,12 @@ OrderedLeafSeq(s) == IF s.g = "F" THEN <<s.n>>
                      ELSE IF s.g \in {"Tup", "Lst"} THEN FlattenSeq([i \in 1..Len(s.xs) |-> OrderedLeafSeq(s.xs[i])])
                      ELSE <<>>
 
+RECURSIVE DictLeaves(_, _)  \* leaves that occur (also) below a dict
+DictLeaves(s, under) == IF s.g = "F" THEN (IF under THEN {s.n} ELSE {})
+                        ELSE IF IsContainer(s) THEN UNION {DictLeaves(s.xs[i], under \/ s.g = "Dct") : i \in 1..Len(s.xs)}
+                        ELSE {}
+FirstOccurrences(q) == SelectSeq([i \in 1..Len(q) |-> IF \E j \in 1..(i - 1) : q[j] = q[i] THEN -1 ELSE q[i]], LAMBDA x : x # -1)
+
 (* Unwrap a resolved structure against an outcome table out[f] = [done, v, u]: the first failure in
    structure order wins (an exception outcome or a non-future object).  Result [v, u, bad]:
    v = unwrapped value or VX(id) of the winning failure, u = uid of that exception instance (0 if
@@ -137,7 +143,8 @@ TaskOut(P, t) ==            \* the value task t returns, or VX(id) of the except
                        LET r == SOut(P, t, k, seg.term.s, 0).v IN
                        IF IsX(r) THEN (IF seg.term.catch THEN Go(k + 1, Append(o.rs, Val("caught", r.n, <<>>))) ELSE r)
                        ELSE Go(k + 1, Append(o.rs, r))
-                  [] seg.term.k \in {"return", "result"} -> Val("r", t, o.rs)
+                  [] seg.term.k \in {"return", "result"} ->
+                       IF seg.term.k = "return" /\ seg.term.ret # 0 THEN Val("fut", seg.term.ret, <<>>) ELSE Val("r", t, o.rs)
                   [] seg.term.k = "raise" -> VX(10000 + t * 100 + k)
   IN Go(1, <<>>)
 
